@@ -76,3 +76,6 @@ def finalize(sink, tier, seed):
         sink.require(f'zero-size-leaves:{b}')
         sink.require(f'rejections:shape:{b}')
         sink.require(f'rejections:dtype:{b}')
+        if b != 'jax':
+            sink.require(f'leaf-layout:{b}:strided', 20)
+            sink.require(f'leaf-layout:{b}:permuted', 5)
